@@ -188,6 +188,42 @@ def Dma.tick (s : Dma) : Dma × Bool :=
   let (s, d) := s.parseFromCP
   (s, a || b || c || d)
 
+/-! ## Dirty-buffer bookkeeping of the driver: which copies are preceded by a cache flush
+
+`Driver.processLaunchKernelCommand` marks every buffer of the context dirty; nothing ever marks a
+buffer clean; `defaultMemoryCopyMiddleware.needFlushing` sends a flush to every GPU when a dirty
+buffer overlaps the copied range (`memRangeOverlap`). -/
+
+structure Buf where
+  start : Nat
+  size : Nat
+  dirty : Bool := false
+deriving Repr, DecidableEq
+
+inductive FOp where
+  | alloc (start size : Nat)
+  | launch
+  | complete            -- a kernel finishes: no effect on the flags
+  | copy (addr len : Nat)
+deriving Repr, DecidableEq
+
+def needFlushing (bufs : List Buf) (addr len : Nat) : Bool :=
+  bufs.any fun b => memRangeOverlap b.start (b.start + b.size) addr (addr + len) && b.dirty
+
+/-- one driver step on the buffer list; a copy reports whether it was preceded by a flush -/
+def fstep (bufs : List Buf) : FOp → List Buf × Option Bool
+  | .alloc s z => (bufs ++ [{ start := s, size := z }], none)
+  | .launch => (bufs.map fun b => { b with dirty := true }, none)
+  | .complete => (bufs, none)
+  | .copy a l => (bufs, some (needFlushing bufs a l))
+
+def frun (bufs : List Buf) : List FOp → List Buf × List Bool
+  | [] => (bufs, [])
+  | op :: rest =>
+    let (b', o) := fstep bufs op
+    let (b'', os) := frun b' rest
+    (b'', (match o with | some x => [x] | none => []) ++ os)
+
 /-! ## Driver (line protocol) -/
 open Util
 
@@ -315,6 +351,15 @@ def handle (line : String) : String :=
       | some a, some b, some c, some d => toString (memRangeOverlap a b c d)
       | _, _, _, _ => "bad"
     | "c11" :: "dma" :: cfg => runDma (joinWith " " cfg :: rest)
+    | "c11" :: "flush" :: _ =>
+      let ops := rest.filterMap fun o =>
+        match words o with
+        | ["a", st, sz] => (hexNat? st).bind fun s => sz.toNat?.map fun z => FOp.alloc s z
+        | ["k"] => some FOp.launch
+        | ["K"] => some FOp.complete
+        | ["c", a, l] => (hexNat? a).bind fun a => l.toNat?.map fun l => FOp.copy a l
+        | _ => none
+      joinWith "" ((frun [] ops).2.map fun b => if b then "F" else "-")
     | "c11" :: "h2d" :: _ =>
       match (kv? t "pt").bind parsePt, kvHex? t "addr", kvNat? t "len", kvNat? t "seed" with
       | some pt, some a, some l, some seed =>
